@@ -656,7 +656,7 @@ Definition reflist_do_convert (t : str) (v0 : value) : result value :=
 Definition do_convert (T : ctype) (v : value) : result value :=
   match T with
   | TText | TChoice => text_do_convert v
-  | TBlob => Ok v
+  | TBlob => match v with PBytes _ _ | PNone => Ok v | _ => Raise E_Conversion end
   | TAny => match v with PAltText s => Ok (PStr false s) | _ => Ok v end
   | TBool => bool_do_convert v
   | TInt => int_do_convert v
@@ -716,6 +716,9 @@ Definition is_right_type (T : ctype) (v : value) : bool :=
 Definition tag (c : string) (args : list value) : value := PList LPlain (PStr false (Str c) :: args).
 
 Definition is_str (v : value) : bool := match v with PStr _ _ => true | _ => false end.
+
+(* str(key) for a key that passed isinstance(key, str): the exact str with the same text *)
+Definition str_key (k : value) : value := match k with PStr _ s => PStr false s | _ => k end.
 
 (* RaisedException.encode_args: drop trailing Nones, keep at least one element *)
 Fixpoint trim_nones (l : list value) : list value :=
@@ -781,7 +784,7 @@ Fixpoint encode_f (fuel : nat) (v : value) : value :=
         | [] => tag "O" [PDict []]
         | _ => match fuel with
                | O => U
-               | S n => tag "O" [PDict (map (fun kv => (fst kv, encode_f n (snd kv))) l)]
+               | S n => tag "O" [PDict (map (fun kv => (str_key (fst kv), encode_f n (snd kv))) l)]
                end
         end
       else U
